@@ -90,6 +90,15 @@ theorem C18_unified_none (ops : List Op) (old new : List Nat) (h : Valid ops old
   ⟨UnifiedLemmas.ratio_iff ops old new h,
    fun hr => equal_script_same ops old new h ((UnifiedLemmas.ratio_iff ops old new h).mp hr)⟩
 
+/-- **a diff is printed whenever the script has a change**: a script with a Delete, Insert or Replace yields at
+least one hunk, and the rendered text starts with the `--- old` / `+++ new` header - together with `C18_unified_none`
+and `C18_unified`: nothing printed iff nothing differs, and what is printed reconstructs the file -/
+theorem C18_unified_printed (n : Nat) (xs : List IOp) (old new : List Nat) (text : Nat → String)
+    (h : UnifiedLemmas.hasChange xs = true) :
+    hunks n xs old new ≠ [] ∧ (render text (hunks n xs old new)).length ≠ 0 :=
+  ⟨UnifiedLemmas.hunks_nonempty n xs old new h,
+   UnifiedLemmas.render_nonempty text _ (UnifiedLemmas.hunks_nonempty n xs old new h)⟩
+
 /-- the numbers of a hunk header (`UnifiedDiffHunkRange::fmt`: a length of 1 is omitted, an empty
 range is written with the line *before* it) are read back by a patch tool as the range they came from -/
 theorem C18_header_roundtrip (s e : Nat) (h : s ≤ e) : decodeRange (encodeRange s e) = (s, e - s) :=
